@@ -260,6 +260,14 @@ def cmdGen : P String := do
     -- theorems that hold for every file the generator returns (gen_importsOk, imports_spec), evaluated
     if !importsOk f then return s!"DIFF C07 theorem-contradicted:imports {feats}"
     if f.imports != expectedImports t then return s!"DIFF C07 theorem-contradicted:imports-spec {feats}"
+  -- four conditions of the domain are guarantees of the parser (C06), not restrictions of the property: a
+  -- description that violates one of them should never have got this far (the harness only passes on what
+  -- `idl.New` accepted), and the generator would turn it into a file that does not compile
+  match outsideBecause t with
+  | some r =>
+    if r == "name-shapes" || r == "unique-members" || r == "homogeneous" || r == "has-method" then
+      return s!"DIFF C07 parser-accepted-a-description-without-its-guarantee:{r} {feats}"
+  | none => pure ()
   -- the property itself, on the observation
   if dom then
     if real == "crash" then return s!"DIFF C07 crash-in-domain {feats}"
